@@ -104,4 +104,15 @@ TEXT = {
         "note": "Trusted as C05; now is read by the harness just before the call; the ±2 s boundary is excluded.",
         "technique": "Lean 4 proof (decision logic stated outright; corollary of the transform rules) + correspondence check",
     },
+    "C16": {
+        "level": "PARTIAL. Lean theorems on the storage contract machine (StoreSpec): an uncommitted transaction never changes the stored data, "
+                 "commit installs exactly the transaction's view, read-only mode refuses every mutating call and commit and leaves reads "
+                 "untouched; the SQLite row representation of the working set yields the same index and the same vector as appending. "
+                 "Observational equivalence of the two real backends and persistence across close/reopen, schema upgrades from 0.8 / 0.9 / "
+                 "(0,1) and read-only handles are decided by a three-way differential run (InMemoryStorage, SqliteStorage, Lean StoreSpec) "
+                 "on every return value — the runtime remainder (SQLite itself) cannot be a theorem here.",
+        "design_ref": "DESIGN.md §5 C16",
+        "note": "Trusted: Lean kernel + standard axioms; SQLite; the harness's schema downgrade. Contract-respecting call sequences only.",
+        "technique": "Lean 4 proof (refinement to an abstract storage spec, partial) + three-way correspondence check",
+    },
 }
